@@ -46,6 +46,15 @@ def main():
     fuzz_one = target.hypothesis.fuzz_one_input
     corpus = a.out or os.path.join("/tmp", "vp_fuzz_%s_%s_%d" % (a.prop, a.sub, a.seed))
     os.makedirs(corpus, exist_ok=True)
+    # Seed corpus: libFuzzer starts from tiny inputs and only grows them on new coverage, but a short buffer cannot be decoded
+    # into a case (Hypothesis runs out of bytes), so rejected inputs never reach pypose and nothing grows.  Start from long
+    # pseudo-random buffers (pure function of the seed) which decode into valid cases; the fuzzer mutates from there.
+    import random
+    rng = random.Random(a.seed)
+    if not os.listdir(corpus):
+        for i in range(48):
+            with open(os.path.join(corpus, "seed_%02d" % i), "wb") as f:
+                f.write(bytes(rng.getrandbits(8) for _ in range(a.max_len // (1 + i % 4))))
 
     def TestOneInput(data):
         try:
@@ -53,7 +62,7 @@ def main():
         except core.CaseAbort:
             pass
 
-    argv = [sys.argv[0], "-runs=%d" % a.runs, "-seed=%d" % a.seed, "-max_len=%d" % a.max_len, "-print_final_stats=0", "-verbosity=0", corpus]
+    argv = [sys.argv[0], "-runs=%d" % a.runs, "-seed=%d" % a.seed, "-max_len=%d" % a.max_len, "-len_control=0", "-print_final_stats=0", "-verbosity=0", corpus]
 
     def report():
         out = st_.dump()
